@@ -344,7 +344,7 @@ class QueryHandler:
             )
 
     def async_response(  # pylint: disable=unused-argument
-        self, msgs: List[DNSIncoming], ucast_source: bool
+        self, msgs: List[DNSIncoming], ucast_source: bool, answered_at: Optional[float] = None
     ) -> Optional[QuestionAnswers]:
         """Deal with incoming query packets. Provides a response if possible.
 
@@ -376,7 +376,10 @@ class QueryHandler:
             else:
                 answers.extend(msg.answers())
 
-        query_res = _QueryResponse(self.cache, questions, is_probe, msg.now)
+        # What was multicast in the last second (or quarter of a TTL) is judged
+        # at the time the query is answered: the packets of a truncated query
+        # arrived up to half a second before that
+        query_res = _QueryResponse(self.cache, questions, is_probe, msg.now if answered_at is None else answered_at)
         known_answers = DNSRRSet(answers)
         known_answers_by_name: Optional[Dict[str, List[DNSRecord]]] = None
         now = msg.now
@@ -481,7 +484,10 @@ class QueryHandler:
         """
         first_packet = packets[0]
         ucast_source = port != _MDNS_PORT
-        question_answers = self.async_response(packets, ucast_source)
+        # (only a truncated query is answered later than its packets arrived)
+        question_answers = self.async_response(
+            packets, ucast_source, current_time_millis() if first_packet.truncated else None
+        )
         if question_answers is None:
             return
         if question_answers.ucast:
